@@ -159,3 +159,133 @@ def make_any():
 def make_arr():
   record('make_arr', {})
   return Arrayish()
+
+
+# --- failing callables (C05) -------------------------------------------------
+class PlainErr(Exception):
+  pass
+
+
+class InitErr(Exception):
+
+  def __init__(self, a, b):
+    super().__init__(f'{a}-{b}')
+    self.a, self.b = a, b
+
+
+class StrErr(Exception):
+
+  def __str__(self):
+    return 'custom str of StrErr'
+
+
+class SlotErr(Exception):
+  __slots__ = ('code',)
+
+  def __init__(self, code):
+    super().__init__(f'slot error {code}')
+    self.code = code
+
+
+class KwErr(Exception):
+
+  def __init__(self, *, code):
+    super().__init__(f'kw error {code}')
+    self.code = code
+
+
+class NewErr(Exception):
+
+  def __new__(cls, *args, **kwargs):
+    self = super().__new__(cls, *args)
+    self.made_by_new = True
+    return self
+
+
+class FinalErr(Exception):
+
+  def __init_subclass__(cls, **kwargs):
+    raise TypeError('FinalErr cannot be subclassed')
+
+
+class BaseExc(BaseException):
+  pass
+
+
+class BadRepr:
+
+  def __repr__(self):
+    raise RuntimeError('repr failed')
+
+
+class BadReprBase:
+
+  def __repr__(self):
+    raise BaseExc('repr failed hard')
+
+
+BAD_REPR = BadRepr()
+BAD_REPR_BASE = BadReprBase()
+
+RAISE_ENABLED = True
+LAST_RAISED = []
+_DYN_COUNT = [0]
+
+
+def _dyn_exc():
+  """A class created at raise time (as in a factory function / re-run notebook cell)."""
+  _DYN_COUNT[0] += 1
+  base = (RuntimeError, LookupError, ArithmeticError)[_DYN_COUNT[0] % 3]
+
+  class LocalErr(base):
+    pass
+
+  return LocalErr(f'local failure {_DYN_COUNT[0]}')
+
+
+FAMILIES = {
+    'plain': lambda: PlainErr('plain failure'),
+    'init2': lambda: InitErr('left', 'right'),
+    'strov': lambda: StrErr('ignored'),
+    'slots': lambda: SlotErr(7),
+    'kwonly': lambda: KwErr(code=9),
+    'new': lambda: NewErr('made by new'),
+    'final': lambda: FinalErr('final failure'),
+    'keyerror': lambda: KeyError('missing-key'),
+    'oserror': lambda: OSError(2, 'No such file or directory', 'some/file'),
+    'unicode': lambda: UnicodeDecodeError('utf-8', b'\xff', 0, 1, 'invalid start byte'),
+    'stopiteration': lambda: StopIteration('exhausted'),
+    'group': lambda: ExceptionGroup('grp', [ValueError(1), KeyError('k')]),
+    'valueerror': lambda: ValueError('bad value'),
+    'typeerror': lambda: TypeError('bad type'),
+    'systemexit': lambda: SystemExit(3),
+    'baseexc': lambda: BaseExc('base failure'),
+    'assertion': lambda: AssertionError('assertion failed'),
+    'localclass': _dyn_exc,
+}
+
+
+def raiser(x=None, family='plain', y='d_y', child=None, bad=None):
+  rec = record('raiser', {'x': x, 'family': family, 'y': y, 'child': child, 'bad': bad})
+  if RAISE_ENABLED and family != 'none':
+    exc = FAMILIES[family]()
+    LAST_RAISED.append(exc)
+    raise exc
+  return rec
+
+
+NESTED_TARGET = None
+NESTED_LOG = []
+
+
+def nester(x=None, attempts=1, child=None):
+  """Tries `attempts` nested fdl.build calls, swallowing each rejection."""
+  import fiddle as fdl
+  rec = record('nester', {'x': x, 'attempts': attempts, 'child': child})
+  for _ in range(attempts):
+    try:
+      fdl.build(NESTED_TARGET)
+      NESTED_LOG.append('returned')
+    except Exception as e:  # pylint: disable=broad-except
+      NESTED_LOG.append(('raised', type(e).__name__))
+  return rec
